@@ -340,6 +340,7 @@ PROPS["C14"] = {
               "timeout": {"quick": 1500, "thorough": 1800}}],
     "assumptions": COMMON_ASSUME + [
         "verified in the jsvalue-enum configuration: property_map.rs is representation-independent source, and under the NaN-boxed build every JsValue clone/drop carries heap-pointer arms that make these harnesses intractable (DESIGN.md §9.1, §9.7)",
+        "PropertyMap is partially initialised for the set_dense_property harnesses (only indexed_properties; shape/storage are never read by that kernel)",
         "symbolic element payloads are int32; keys are concrete per harness (append, overwrite first/last, remove last, remove absent): a symbolic key keeps the sparse hash-map arms in the formula",
     ],
     "outside_claim": [
@@ -353,7 +354,10 @@ PROPS["C14"] = {
                 "elements with ALL int32 contents: insert of a simple data descriptor (append, overwrite first, overwrite last) with ANY int32 "
                 "value, remove (last element, absent key) and push_dense (an int32, then a double: the int→double storage transition): the "
                 "abstract index→value map afterwards (values, presence, descriptor flags, the reported 'was present') is what the generic "
-                "algorithm gives and the storage form is the expected one. Sequences, sparse forms, holes and all Array builtins are NOT decided.",
+                "algorithm gives and the storage form is the expected one. Plus PropertyMap::set_dense_property (the in-range `a[i] = v` fast path) "
+                "from a packed-int array for ALL 2^64 doubles (the stored Number reads back SameValue: -0 is not collapsed to the int 0; the other "
+                "element and the length are unchanged in whatever storage form results), for all int32 values, for an out-of-range index, and from a "
+                "packed-double array for all Numbers. Sequences, sparse forms, holes and all Array builtins are NOT decided.",
         "note": "Verified under --features jsvalue-enum (same property_map.rs source). Trusted: Kani/CBMC. Outside: sparse forms, heap-valued "
                 "elements, insert()-driven transitions, Array exotic object and builtins.",
         "technique": "bounded model checking of the compiled Rust (Kani/CBMC, SAT): one step from a symbolic packed-int state vs abstract map",
